@@ -18,6 +18,7 @@ package c11
 import (
 	"encoding/json"
 	"fmt"
+	"os"
 	"sort"
 	"strconv"
 	"strings"
@@ -944,7 +945,7 @@ func Run(c *vh.Ctx) {
 		}
 	}
 	rn := &runner{c: c, m: m}
-	c.Res.Rule = "a scripted case is non-trivial if it has ≥ 2 requests whose turns interleave; a load case if ≥ 2 requests were in flight; distinct = different programs/data/schedule"
+	c.Res.Rule = "a scripted case (step language or value catalogue) is non-trivial if it has ≥ 2 requests whose turns interleave; a load case if ≥ 2 requests were in flight; distinct = different programs/data/schedule"
 
 	if len(c.ReplayRaw) > 0 {
 		var probe struct {
@@ -952,6 +953,8 @@ func Run(c *vh.Ctx) {
 		}
 		json.Unmarshal(c.ReplayRaw, &probe)
 		switch probe.Kind {
+		case "vals":
+			rn.replayValCase(c.ReplayRaw)
 		case "load":
 			var lc loadCase
 			if err := json.Unmarshal(c.ReplayRaw, &lc); err != nil {
@@ -984,6 +987,12 @@ func Run(c *vh.Ctx) {
 		}
 	}
 
+	// 0. the value catalogue: every kind of value created before a gate and used after it
+	valueStreams(rn)
+	if os.Getenv("VERIF_C11_ONLY") == "vals" {
+		return
+	}
+
 	// 1. the negation witnesses of the property file, one server each
 	for _, w := range witnesses() {
 		rn.runBatch([]schedCase{w}, "witness")
@@ -1002,7 +1011,7 @@ func Run(c *vh.Ctx) {
 	batch(enumerate(sgAlpha, true), "known", 16)
 	batch(enumerateSame(sgAlpha), "known", 16)
 	c.Res.Exhaustive = true
-	c.Res.ExhaustiveWhat = fmt.Sprintf("two requests A = parse·x·gate·y·write, B = parse·[gate]·z·write for all x,y,z of the superglobal-free alphabet %v and of the superglobal alphabet %v, every gate-level interleaving; the same with one closure serving both requests (A = B = parse·x·gate·y·write, different data)", mainAlpha, sgAlpha)
+	c.Res.ExhaustiveWhat = fmt.Sprintf("two requests A = parse·x·gate·y·write, B = parse·[gate]·z·write for all x,y,z of the superglobal-free alphabet %v and of the superglobal alphabet %v, every gate-level interleaving; the same with one closure serving both requests (A = B = parse·x·gate·y·write, different data); the value catalogue (%d kinds of values created before a gate and used after it): per kind two requests with different data on the same route, every gate-level interleaving, plus three requests in three fixed orders", mainAlpha, sgAlpha, len(valKinds()))
 
 	// 3. seeded schedules: 2..6 requests, random programs, data, middlewares, interleavings
 	var mainCases, sgCases, stale []schedCase
